@@ -13,12 +13,12 @@ package topics
 //@ func (PredefinedTopics).GetTopicName
 //@   nopanic [C05]
 //@   ensures [C05] defined: result1 == nameDefined(t, clientID, topicID)
-//@   ensures [C05] value: result1 ==> result0 == nameSpec(t, clientID, topicID)
+//@   ensures [C05,C32] value: result1 ==> result0 == nameSpec(t, clientID, topicID)
 //@   ensures [C05] undefined_empty: !result1 ==> len(result0) == 0
 
 //@ func (PredefinedTopics).GetTopicID
 //@   nopanic [C05]
-//@   ensures [C05] sound: result1 ==> nameDefined(t, clientID, result0) && nameSpec(t, clientID, result0) == topic
+//@   ensures [C05,C32] sound: result1 ==> nameDefined(t, clientID, result0) && nameSpec(t, clientID, result0) == topic
 //@   ensures [C05] none_zero: !result1 ==> result0 == 0
 
 // ---- C30: building the mapping (file, then options; later definitions win) ----
